@@ -1067,10 +1067,10 @@ class Characteristic(Variable):
             self._vals[ti] += comp[ti]
         if self.denominator is not None:
             denom = self.denominator[ti]
-            if denom > 0:
+            if self._vals[ti] < model_settings["tolerance"]:
+                self._vals[ti] = 0  # A numerator below the tolerance gives zero (including the zero/zero case) - this must match the `vals` property used to report the value after the simulation
+            elif denom > 0:
                 self._vals[ti] /= denom
-            elif self._vals[ti] < model_settings["tolerance"]:
-                self._vals[ti] = 0  # Given a zero/zero case, make the answer zero.
             else:
                 self._vals[ti] = np.inf  # Given a non-zero/zero case, keep the answer infinite.
 
